@@ -45,7 +45,8 @@ ClassFlags(r) ==
     [] cls = "nestedtail" ->
          \* what a nested container leaves unread and what follows the container are both handed on (LeakRemainder), nothing is lost
          LET d == DecPacket(r.ty, r.in) IN
-         IF (d.ok /\ r.st = "ok" /\ (ObsStruct(r.ty, d.val) # r.val \/ Len(d.rest) # r.rest)) \/ (d.ok # (r.st = "ok"))
+         \* (rejecting the packet because of the unknown tag would be fine: only a returned value is judged)
+         IF d.ok /\ r.st = "ok" /\ (ObsStruct(r.ty, d.val) # r.val \/ Len(d.rest) # r.rest)
          THEN {"P14-nested-tail"} ELSE {}
     [] OTHER -> {}
 
